@@ -353,6 +353,9 @@ pub fn shrink_of(c: &OFCase) -> Vec<OFCase> {
 /// `which` = "C05" (order / paths / containers; delimiters of length 1) or "C14" (bounds / tiling; delimiters of any length)
 pub fn run_files(which: &str, tier: &str, seed: u64, model: &Model, corpus_lines: Vec<String>, work: &str) -> Report {
     let mut rep = Report::new(which);
+    if sharded() {
+        return rep;
+    }
     rep.rules.push("a case = record list + k + header flag + delimiter + thread count + writer path (memory-mapped, or batched with a memory limit from 1 byte to 4 GiB) + container (single-line FASTA, wrapped FASTA, FASTQ, gzip) + schedule (every interleaving at hook granularity by stateless DFS for small cases; seeded random serialised schedules; seeded jitter; free-running); compared: output bytes vs header ++ rows in record order built from the Lean model's row text, every logged write (in bounds, disjoint, tiling the mapping), the event trace as a run of the Lean transition system; non-trivial = at least two records and two workers".into());
     let mut rng = Rng::new(seed);
     let mut exp = Expect::new(model);
